@@ -1,7 +1,7 @@
 """R-LAYOUT (DESIGN 3.4): path-wise abstract evaluation of loop-free accessor bodies (one level of crate-local
 inlining) and matching of every unchecked access against the layout lemmas, with the lemma's hypotheses
 among the path facts."""
-import re, copy
+import re, copy, os
 from .core import Result, AnchorMissing
 from .facts import norm_ty
 from .vgraph import (Poly, ZERO, ONE, Slice, Elem, RefTo, Tup, Adt, Cond, Gamma, Unknown, EMPTY, Inconclusive, strip_ref, decide, saturate)
@@ -702,6 +702,8 @@ def r_layout(f):
             if not extra_fn:
                 ninc += 1
             R.inconc(b.ident, "engine inconclusive: %s" % e)
+            if os.environ.get("VERIF_LAYOUT_STRICT") and any(fn_ and fn_["name"] in ("get_unchecked", "get_unchecked_mut", "from_raw_parts", "from_raw_parts_mut") for _, _, fn_ in b.calls()):
+                R.fail(b.ident, "unproven-unchecked", "%s contains an unchecked access that the evaluator cannot follow (%s): unproven" % (b.ident, e), b.where())
             continue
         except (KeyError, IndexError, TypeError, AttributeError, RecursionError) as e:
             if not extra_fn:
